@@ -528,13 +528,22 @@ def unroll_name_loops_function(fn) -> int:
 
     changed = 0
 
+    def _simple(e) -> bool:
+        if isinstance(e, ast.Constant):
+            return True
+        if isinstance(e, ast.Name):
+            return True
+        if isinstance(e, ast.Attribute):
+            return _simple(e.value)
+        return False
+
     class Sub(ast.NodeTransformer):
-        def __init__(self, var, value):
-            self.var, self.value = var, value
+        def __init__(self, env):
+            self.env = env
 
         def visit_Name(self, n):
-            if n.id == self.var and isinstance(n.ctx, ast.Load):
-                return ast.copy_location(ast.Constant(value=self.value), n)
+            if n.id in self.env and isinstance(n.ctx, ast.Load):
+                return ast.copy_location(clone(self.env[n.id]), n)
             return n
 
     class Fold(ast.NodeTransformer):
@@ -563,18 +572,43 @@ def unroll_name_loops_function(fn) -> int:
                 return ast.copy_location(ast.Assign(targets=[ast.Attribute(value=c.args[0], attr=c.args[1].value, ctx=ast.Store())], value=c.args[2]), n)
             return n
 
-    def eligible(st) -> bool:
-        if not isinstance(st, ast.For) or st.orelse or not isinstance(st.target, ast.Name):
-            return False
+    def targets_of(st) -> list:
+        if isinstance(st.target, ast.Name):
+            return [st.target.id]
+        if isinstance(st.target, (ast.Tuple, ast.List)) and all(isinstance(t, ast.Name) for t in st.target.elts):
+            return [t.id for t in st.target.elts]
+        return []
+
+    def envs_of(st):
+        """One substitution per entry of the literal table, or None."""
+        names = targets_of(st)
         it = st.iter
-        if not isinstance(it, (ast.Tuple, ast.List)) or not (1 <= len(it.elts) <= 12) or not all(isinstance(e, ast.Constant) and isinstance(e.value, str) for e in it.elts):
+        if not names or not isinstance(it, (ast.Tuple, ast.List)) or not (1 <= len(it.elts) <= 12):
+            return None
+        out = []
+        for e in it.elts:
+            if isinstance(st.target, ast.Name):
+                if not (isinstance(e, ast.Constant) and isinstance(e.value, str)):
+                    return None
+                out.append({names[0]: e})
+            else:
+                if not (isinstance(e, (ast.Tuple, ast.List)) and len(e.elts) == len(names) and all(_simple(x) for x in e.elts)):
+                    return None
+                out.append(dict(zip(names, e.elts)))
+        return out
+
+    def eligible(st) -> bool:
+        if not isinstance(st, ast.For) or st.orelse or envs_of(st) is None:
             return False
         if len(st.body) > 8:
             return False
+        names = set(targets_of(st))
+        # what the entries read must not be re-bound by the body
+        roots = {x.id for e in st.iter.elts for x in ast.walk(e) if isinstance(x, ast.Name)}
         for n in ast.walk(ast.Module(body=st.body, type_ignores=[])):
             if isinstance(n, (ast.Break, ast.Continue, ast.Return, ast.Yield, ast.YieldFrom, ast.FunctionDef, ast.Lambda, ast.ClassDef)):
                 return False
-            if isinstance(n, ast.Name) and n.id == st.target.id and isinstance(n.ctx, (ast.Store, ast.Del)):
+            if isinstance(n, ast.Name) and (n.id in names or n.id in roots) and isinstance(n.ctx, (ast.Store, ast.Del)):
                 return False
         return True
 
@@ -590,9 +624,9 @@ def unroll_name_loops_function(fn) -> int:
                         h.body = rewrite(h.body)
             if eligible(st):
                 # the variable must not be read after the loop
-                for e in st.iter.elts:
+                for env_ in envs_of(st):
                     for b in st.body:
-                        c = Fold().visit(Sub(st.target.id, e.value).visit(clone(b)))
+                        c = Fold().visit(Sub(env_).visit(clone(b)))
                         out.append(ast.copy_location(c, b))
                 changed += 1
                 continue
@@ -600,10 +634,10 @@ def unroll_name_loops_function(fn) -> int:
         return out
 
     # names read after their loop would change meaning: only unroll when the loop variable is not used outside loops over it
-    loop_vars = {st.target.id for st in ast.walk(fn) if isinstance(st, ast.For) and isinstance(st.target, ast.Name)}
+    loop_vars = {v for st in ast.walk(fn) if isinstance(st, ast.For) for v in targets_of(st)}
     outside = set()
     for v in loop_vars:
-        inside_ids = {id(n) for st in ast.walk(fn) if isinstance(st, ast.For) and isinstance(st.target, ast.Name) and st.target.id == v for n in ast.walk(st)}
+        inside_ids = {id(n) for st in ast.walk(fn) if isinstance(st, ast.For) and v in targets_of(st) for n in ast.walk(st)}
         decl_only = {id(st.target) for st in ast.walk(fn) if isinstance(st, ast.AnnAssign) and st.value is None and isinstance(st.target, ast.Name)}
         if any(isinstance(n, ast.Name) and n.id == v and id(n) not in inside_ids and id(n) not in decl_only for n in ast.walk(fn)):
             outside.add(v)
@@ -611,7 +645,7 @@ def unroll_name_loops_function(fn) -> int:
         _el = eligible
 
         def eligible(st, _el=_el):  # noqa: F811
-            return _el(st) and st.target.id not in outside
+            return _el(st) and not (set(targets_of(st)) & outside)
 
     fn.body = rewrite(fn.body)
     if changed:
